@@ -798,7 +798,7 @@ var verifC15Epoch = time.Date(2021, time.March, 3, 12, 0, 0, 0, time.UTC)
 // inconclusive (never a violation).
 var verifC15Inconclusive atomic.Bool
 
-const verifC15SyncDeadline = 45 * time.Second
+const verifC15SyncDeadline = 120 * time.Second
 
 // ---------------------------------------------------------------------------
 // Monitor
@@ -1724,7 +1724,7 @@ func (r *verifC15Run) doAdd(j int) {
 	_, err := r.reg.AddInvoice(context.Background(), inv, lntypes.Hash(v.Hash))
 	r.mu.Lock()
 	if err != nil {
-		r.tr("add inv%d: err %v", j, err)
+		r.tr("add inv%d: err", j)
 		if !r.added[j] {
 			r.vc.Diag("add_invoice_error", fmt.Sprintf("store=%s kind=%s feat=%s: %v", r.store, v.Kind, v.Feat, err))
 		}
@@ -2104,7 +2104,7 @@ func TestVerifC15(t *testing.T) {
 	verifC15FastTmp()
 	defer verifC15Finish(vc)
 
-	total := vc.N(3000, 300000)
+	total := vc.N(3000, 200000)
 	for i := 0; i < total; i++ {
 		if !vc.Mine(i) {
 			continue
@@ -2146,7 +2146,7 @@ func TestVerifC15Conc(t *testing.T) {
 	verifC15FastTmp()
 	defer verifC15Finish(vc)
 
-	total := vc.N(600, 30000)
+	total := vc.N(600, 20000)
 	for i := 0; i < total; i++ {
 		if !vc.Mine(i) {
 			continue
